@@ -131,6 +131,10 @@ void tw_handler(const y2::error_type& ev) {
         t.type = e->type;
     } else if (std::get_if<y2::hash_search_error>(&ev))
         t.alt = EA_HASH_SEARCH;
+    else if (auto e = std::get_if<y2::method_table_error>(&ev)) {
+        t.alt = EA_METHOD_TABLE;
+        t.type = e->type;
+    }
     throw t;
 }
 
@@ -1152,6 +1156,7 @@ struct TwExec {
     std::uint64_t calls_by_method[12] = {}, defs_run_by_method[12] = {};
     std::vector<std::string> trace; // reports and outcome tables, in order
     std::uint64_t unregistered_calls = 0;
+    std::uint64_t final_probes = 0;
     std::string encoded; // C13: encode_dispatch_data of the last update
     std::uint64_t offsets_checked = 0;
 
@@ -1415,7 +1420,7 @@ struct TwExec {
                         if (g_tw_focus == "C13")
                             encoded = glue_encode<P>(comp, "P");
                         if (g_tw_focus == "C12")
-                            check_offsets_text(glue_offsets_policy<P>());
+                            check_offsets_text(glue_offsets_policy<P>(updates % 3 == 0));
                     }
 #endif
                     trace.push_back("report " + std::to_string(comp.report.cells) + "/" +
@@ -1588,6 +1593,28 @@ struct TwExec {
         // argument whose class is not registered must be reported by a checked
         // policy before any definition runs (final is outside the property)
         if constexpr (P::template has_facet<runtime_checks> && P::template has_facet<type_hash>) {
+            // final with an object of another dynamic type (classes with a
+            // virtual destructor here, without one in the synthetic world):
+            // method_table_error; with the exact type: accepted
+            if (L.reg[cAnimal]) {
+                for (int cls : {cAnimal, cDog, cCat, cBulldog, cRoboDog}) {
+                    if (!L.reg[cls])
+                        continue;
+                    Animal& a = *Lab<P>::as_animal(cls);
+                    int alt = 0;
+                    try {
+                        auto p = y2::virtual_ptr<Animal, P>::final(a);
+                        (void)p;
+                    } catch (TwThrow& t) {
+                        alt = t.alt;
+                    }
+                    ++final_probes;
+                    if (cls == cAnimal ? alt != 0 : alt != EA_METHOD_TABLE)
+                        fail("C15", cls == cAnimal ? "final-exact-type-reported" : "final-mismatch-not-reported",
+                             "virtual_ptr<Animal>::final on an object of class " + std::to_string(cls) +
+                                 ": error alternative " + std::to_string(alt));
+                }
+            }
             for (int mi : reg.methods) {
                 auto& m = plan.recs[mi];
                 for (std::size_t pos = 0; pos < m.vp.size(); ++pos)
@@ -1676,6 +1703,11 @@ void tw_zero_static_vptrs() {
 template<class P>
 MiniOutcome tw_run_t(const J& c) {
     MiniOutcome o;
+#ifndef YS_NO_GLUE
+    if constexpr (TwExec<P>::kGenerator) {
+        glue_new_generator<P>(); // the generator object of this process
+    }
+#endif
     TwExec<P> ex;
     {
         std::string why = macro_world::check();
@@ -1855,6 +1887,7 @@ MiniOutcome tw_run_t(const J& c) {
         }
     }
     o.counters["offsets_methods_checked"] = ex.offsets_checked;
+    o.counters["final_probes"] = ex.final_probes;
     o.counters["updates"] = ex.updates;
     o.counters["loads"] = ex.loads;
     o.counters["unloads"] = ex.unloads;
